@@ -11,8 +11,15 @@ from run import Case
 from regmachine import Machine
 
 PROPERTY = "C14"
-LEAN_MODULE = "PyOak.Props.C14"
+LEAN_MODULE = "PyOak.Props.C14All"     # imports PyOak.Props.C14, PyOak.Props.C14Extra
 THEOREMS = ["PyOak.C14." + t for t in ['dup_fresh', 'dup_copy', 'dup_independent', 'replace_new_id', 'replace_same_digest_keeps_id', 'dcReplace_new_id']]
+# additions after the audit (Props/C14Extra.lean): every node of a duplicate is new and registered (a shallow copy is
+# refuted), the id rule of replace() stated as in the property text, with the failing reading of its parenthetical
+THEOREMS += ["PyOak.C14X." + t for t in [
+    'dup_all_new', 'dup_all_registered', 'dup_descendants_new', 'duplicate_step', 'isCopy_self', 'shallow_is_not_new',
+    'freshId_least', 'freshId_skipped', 'replace_id_fresh_absent', 'replace_id_eq_construct_absent',
+    'replace_keeps_plain_id', 'replace_suffixed_twin_dead', 'replace_keeps_id_iff', 'replace_keeps_id_naive_fails',
+    'replace_detached', 'replace_new_node', 'dcReplace_new_node', 'idShape_run', 'replace_same_digest_keeps_id_iff']]
 RULE = ("random histories (<= 24 ops) with 30% construct, 30% duplicate/replace/dataclasses.replace (single- and "
         "multi-field changes of comparable / non-comparable props, children, origin; replace raising), rest detach / "
         "as_obj / alias / del, on registered and detached originals with and without registered twins, shared subtrees; "
@@ -148,7 +155,69 @@ def opaque_value_cases(rng, n):
         gc.collect()
 
 
+def _least_free_id(digest, keys):
+    """the id rule of the statement read independently: the digest itself if free, else digest_j for the LEAST free j >= 1
+    (Lean: C14X.freshId_least / freshId_skipped)"""
+    if digest not in keys:
+        return digest
+    j = 1
+    while f"{digest}_{j}" in keys:
+        j += 1
+    return f"{digest}_{j}"
+
+
+def replace_id_rule_case(rng):
+    """replace(): 'the id a fresh construction with the original absent would get' (C14X.replace_id_fresh_absent,
+    replace_keeps_id_iff), on the corners the random histories rarely reach: originals carrying a SUFFIXED id whose twins
+    are alive / dead / partly dead, and detached originals.  Only the main clause is demanded: the parenthetical of the
+    statement ('the original's id when ... it has no registered twin') does not hold for a suffixed original whose twin
+    died (C14X.replace_keeps_id_naive_fails; code and model agree there), so it is not an oracle."""
+    import gc
+    k0 = rng.randrange(10 ** 6) * 10
+    fail = None
+    notes = []
+
+    def run(name, x, digest):
+        nonlocal fail
+        registered = _REG.get(x.id) is x
+        keys = set(_REG.keys()) - ({x.id} if registered else set())
+        want = _least_free_id(digest, keys)
+        r = x.replace(payload=name)                     # only a non-comparable field changes: the digest is `digest`
+        if fail is None and r.id != want:
+            fail = (f"replace() [{name}]: the new node has id {r.id}, a fresh construction with the original absent gets {want} "
+                    f"(original id {x.id}, registered={registered})")
+        if fail is None and (_REG.get(r.id) is not r or _REG.get(x.id) is x):
+            fail = f"replace() [{name}]: new node not registered / original still registered"
+        notes.append(f"{name}: {'kept' if r.id == x.id else 'changed'}")
+        return r
+
+    a = C14Holder(key=k0)
+    run("plain id", a, a.id)                                                        # d -> d
+    t1, t2 = C14Holder(key=k0 + 1), C14Holder(key=k0 + 1)                         # d, d_1
+    d = t1.id
+    if t2.id != d + "_1":
+        fail = fail or "content-identical twin did not get the suffixed id"
+    r2 = run("suffixed id, twin alive", t2, d)                                      # d_1 -> d_1
+    del t1
+    gc.collect()
+    r3 = run("suffixed id, twin dead", r2, d)                                       # d_1 -> d   (not kept: no twin!)
+    u1, u2, u3 = (C14Holder(key=k0 + 2) for _ in range(3))                           # e, e_1, e_2
+    e = u1.id
+    del u2
+    gc.collect()
+    run("suffixed id, lower suffix freed", u3, e)                                   # e_2 -> e_1
+    w1, w2 = C14Holder(key=k0 + 3), C14Holder(key=k0 + 3)
+    w2.detach_self()
+    run("detached original, twin alive", w2, w1.id)                                 # f_1 (detached) -> f_1
+    del a, r2, r3, u1, u3, w1, w2
+    gc.collect()
+    yield Case("directed:replace-id-rule", None, None, True,
+               "replace(payload=…) of originals with plain / suffixed ids, twins alive, dead, partly dead, detached: " + "; ".join(notes),
+               oracle_fail=fail, sig="copy|directed|replace-id-rule")
+
+
 def cases(rng: random.Random, tier: str):
+    yield from replace_id_rule_case(rng)
     yield from opaque_value_cases(rng, 6 if tier == "quick" else 100)
     n = 120 if tier == "quick" else 3000
     for _ in range(n):
